@@ -575,3 +575,41 @@ def check_ctor(ctx, rep, F, op, ctor_short, lpm, rule, rule_seed=None, mode="str
         else:
             rep.ok(rule, ctor_short, "%s/%s" % (lv, rv), sample={"inputs": ins, "stack": got} if len(got) == 2 else None)
     return n
+
+
+# ---------------------------------------------------------------- UnionItem accessors (observe_at of C05 / C08)
+ITEM_ACCESSORS = {
+    # fn: {variant: expected result}; S/N = the stored annotation is Some / None
+    "UnionItem::prefix": {"Left": "&**self.prefix", "Right": "&**self.prefix", "Both": "&**self.prefix"},
+    "UnionItem::both": {"Left": "None", "Right": "None", "Both": "Some((&**self.prefix, &**self.left, &**self.right))"},
+    "UnionItem::left": {"Left": "Some((&**self.prefix, &**self.left))", "Both": "Some((&**self.prefix, &**self.left))",
+                        "Right:N": "None", "Right:S": "Some(*self.left.some)"},
+    "UnionItem::right": {"Right": "Some((&**self.prefix, &**self.right))", "Both": "Some((&**self.prefix, &**self.right))",
+                         "Left:N": "None", "Left:S": "Some(*self.right.some)"},
+}
+
+
+def check_item_accessors(ctx, rep, F, rule, names):
+    for short in names:
+        if short not in F.short:
+            rep.bad(rule, short, "missing", "%s not found" % short, kind="unrecognised", config=F.config)
+            continue
+        table = ITEM_ACCESSORS[short]
+        paths = ctx.paths(F, short, {"loop_bound": 1})
+        C.report_unrecognised(rep, rule, short, paths, F)
+        for p in paths:
+            if p.result[0] != "ret":
+                rep.bad(rule, short, "not total", "%s: %s" % (short, C.result_str(p)), config=F.config)
+                continue
+            inp = dict(p.inputs)
+            var = inp.get("variant:*self")
+            ann = inp.get("opt:*self.left") or inp.get("opt:*self.right")
+            key = var if var in table else "%s:%s" % (var, ann)
+            want = table.get(key)
+            got = repr(p.result[1]).replace("?", "")
+            if want is None:
+                rep.bad(rule, short, "unjustified:" + str(var), "%s answers %s for a %s item without reading the stored annotation" % (short, got, var), config=F.config)
+            elif got != want:
+                rep.bad(rule, short, "%s:wrong" % key, "%s on a %s item must return %s, it returns %s" % (short, key, want, got), config=F.config)
+            else:
+                rep.ok(rule, short, key)
